@@ -75,8 +75,22 @@ def apply_edits(content: str, lang: str, edits: list[dict]) -> tuple[str, list[d
     return bom + eol.join(lines) + eol, out
 
 
-def lint(root: Path, names: list[str]) -> list[dict]:
-    return [{k: v for k, v in d.items() if k != "cross"} for d in C04.lint_all(root, names)]
+def lint(root: Path, names: list[str], linter=None) -> list[dict]:
+    return [{k: v for k, v in d.items() if k != "cross"} for d in C04.lint_all(root, names, linter)]
+
+
+def with_directive(content: str, lang: str, base: list[dict]) -> str | None:
+    """The base file with a same-line ignore directive on the line of its last movable finding."""
+    movable = [v for v in base if v["file"] == 0 and not v["pinned"] and v["sub"]]
+    if not movable:
+        return None
+    v = max(movable, key=lambda x: x["line"])
+    lines = content.rstrip("\n").split("\n")
+    if not (1 <= v["line"] <= len(lines)) or "thailint" in lines[v["line"] - 1]:
+        return None
+    cm = "#" if lang == "py" else "//"
+    lines[v["line"] - 1] += f"  {cm} thailint: ignore[{v['linter']}.{v['sub']}]"
+    return "\n".join(lines) + "\n"
 
 
 def job(j: dict) -> dict:
@@ -107,6 +121,33 @@ def job(j: dict) -> dict:
         import src.linter_config.ignore as ig
         ig._CACHED_PARSER = None
         runs.append({"edits": concrete, "after": lint(root, names), "case": case})
+    # the same project edited in place and linted again by the same process (alternately by one held Linter),
+    # once as is and once with an inline directive in the file: every step starts from the original text
+    import random as _random
+    rnd = _random.Random(j["root"])
+    for variant in ("plain", "directive"):
+        content0 = padded[main] if variant == "plain" else with_directive(padded[main], lang, base)
+        if content0 is None:
+            continue
+        rootv = Path(j["root"]) / f"inplace-{variant}"
+        rootv.mkdir()
+        drive.write_tree(rootv, padded)
+        (rootv / main).write_text(content0)
+        (rootv / ".thailint.yaml").write_text(cfg)
+        os.chdir(rootv)
+        import src.linter_config.ignore as ig3
+        ig3._CACHED_PARSER = None
+        from src.api import Linter as _Linter
+        held = _Linter(project_root=str(rootv))
+        base_v = lint(rootv, names, held)
+        usable = [c for c in j["cases"] if not (linter in ("file-header", "lazy-ignores") and any(
+            e["pos"] == 0 and e["kind"] in ("blank", "comment") for e in c["edits"]))]
+        for ci, case in enumerate(rnd.sample(usable, min(j.get("inplace_len", 8), len(usable)))):
+            new, concrete = apply_edits(content0, lang, case["edits"])
+            with open(rootv / main, "w", encoding="utf-8", newline="") as f:
+                f.write(new)
+            runs.append({"edits": concrete, "after": lint(rootv, names, held if ci % 2 == 0 else None),
+                         "case": dict(case, inplace=variant), "base": base_v})
     return {"base": base, "runs": runs}
 
 
@@ -137,8 +178,8 @@ def run(chk) -> None:
         if not r_.ok:
             raise MachineryError(f"C13 job failed ({j['base'][0][0]}/{j['base'][0][2]}): {r_.error}")
         for run_ in r_.value["runs"]:
-            records.append({"base": r_.value["base"], "after": run_["after"], "edits": run_["edits"]})
-            meta.append((j["base"][0], r_.value["base"], run_))
+            records.append({"base": run_.get("base", r_.value["base"]), "after": run_["after"], "edits": run_["edits"]})
+            meta.append((j["base"][0], run_.get("base", r_.value["base"]), run_))
     verdicts = trace.validate(chk, "EditsTrace", "mc/EditsTrace.cfg", records, timeout=1800)
     for (b, base, run_), (la, lb, at) in zip(meta, verdicts):
         kinds = [e["kind"] for e in run_["edits"]]
